@@ -22,7 +22,7 @@ pub fn meta() -> Meta {
             "power-on values are the documented ones: registers 0, micro-address 0, instruction register 0x02, no pending writes/interrupt/wait, ALU latch 0, outputs/MICR/UCR 0, inputs 0, timer off with dividers 0, board outputs 0 V, DAICR 0, fan 0, UIO directions input",
             "MISR, USR, UART data and the board's status/interrupt-status bits are not named by C07 and not asserted",
         ],
-        floors: vec![("histories", 500), ("prefix_resets_checked", 50_000), ("loads_compared", 5_000), ("loads_compared_in_assembly_mode", 1_000), ("history_load_limits_checked", 2_000), ("lockstep_cycles", 1_000_000), ("resets_with_dirty_board_outputs", 200), ("resets_with_dirty_sequencer", 10_000), ("resets_from_halted", 1_000)],
+        floors: vec![("histories", 500), ("prefix_resets_checked", 50_000), ("loads_compared", 5_000), ("loads_compared_in_assembly_mode", 1_000), ("history_load_limits_checked", 2_000), ("lockstep_cycles", 1_000_000), ("resets_with_dirty_board_outputs", 200), ("resets_with_dirty_sequencer", 10_000), ("resets_from_halted", 1_000), ("resets_followed_by_twin_lockstep", 10_000)],
     }
 }
 
@@ -126,7 +126,15 @@ fn gen_history(rng: &mut Rng, len: usize) -> History {
             _ => follow_up(rng),
         };
         let ss = *rng.pick(&[0u8, 1, 1, 2, 3, 4, 5]);
-        let ps = *rng.pick(&[-1i32, -1, -2, 255, 200]);
+        let ps = match rng.below(9) {
+            0 | 1 => -1i32,
+            2 => -2,
+            3 => 255,
+            4 => 200,
+            5 => 0,
+            6 => *rng.pick(&[1i32, 239, 240, 254]),
+            _ => rng.u8() as i32,
+        };
         programs.push((img, ss, ps));
     }
     let mut ops = vec![Op::Load(0)];
@@ -349,10 +357,34 @@ fn run_history(h: &History, quick: bool, rep: &mut Report) -> Option<(V, usize)>
         if let Some(v) = check_cpu_part(&m, &mr, "master-reset").or_else(|| check_master_reset(&m, &mr, "master-reset")) {
             return Some((v, i));
         }
+        // no state outside what a reset restores: a reset machine and a newly created machine that
+        // is given the same sequencer/bus state must react alike to the clock key in either mode
+        if rng.chance(1, 4) {
+            for (which, reset) in [("cpu-reset", {
+                let mut c = m.clone();
+                c.cpu_reset();
+                c
+            }), ("master-reset", mr.clone())] {
+                let mut a = reset;
+                let mut twin = Machine::new(MachineConfig::default());
+                *twin.raw_mut() = a.raw_mut().clone();
+                let mode = if rng.chance(2, 3) { StepMode::Assembly } else { StepMode::Real };
+                a.set_step_mode(mode);
+                twin.set_step_mode(mode);
+                for c in 0..24 {
+                    a.trigger_key_clock();
+                    twin.trigger_key_clock();
+                    if *a.raw_mut() != *twin.raw_mut() {
+                        return Some(((format!("C07:{}:hidden-state", which), format!("clock key #{} after the reset ({:?} mode): the reset machine and a newly created machine given the same state differ (PC {:#04x} vs {:#04x}, state {:?} vs {:?})", c, mode, real::arch(&a).r[3], real::arch(&twin).r[3], a.state(), twin.state())), i));
+                    }
+                }
+                rep.inc("resets_followed_by_twin_lockstep");
+            }
+        }
         // load of the follow-up program
         if !quick || rng.chance(1, 3) || i + 1 == h.ops.len() {
             let ss = *rng.pick(&[0u8, 1, 2, 3, 4]);
-            let ps = *rng.pick(&[-1i32, -1, 255]);
+            let ps = *rng.pick(&[-1i32, -1, 255, 255, 0, 240, h.follow.len() as i32]);
             let mut ml = m.clone();
             ml.load(bytecode(&h.follow, ss_of(ss), ps_of(ps)));
             let mut expect_ram = [0u8; 0xF0];
